@@ -2,7 +2,7 @@
 from harness.common import Case, hx, unhx, toks_str, Fields, run_driver, MachineryFault
 from harness import gen as G, taptree as TT
 
-KINDS = 'ms'
+KINDS = 'gms'
 RULE = ('all full binary tree shapes with 1..5 leaves (thorough: 1..7) plus single-element list wrappers, random shapes to depth 8, every leaf '
         'index of each tree, leaf scripts of 1..70000 bytes incl. duplicates, internal keys of both parities, output keys of both parities; '
         'merkle root, address program + parity, control block on implementation vs hand model; the Spec recomputes the root independently and '
@@ -105,6 +105,22 @@ def cases(ctx):
         yield Case(f'tr_addr {hx(pub.to_bytes())} N', 'ms', nontrivial=not pub.is_y_even(), tag='keyonly')
         root = G.rbytes(rng, 32)
         yield Case(f'tr_addr {hx(pub.to_bytes())} R {hx(root)}', 'ms', nontrivial=True, tag='rawroot')
+    # the two hash leaves against the *generated* code (tier T): TapBranch on ordered / reversed / equal / prefix-related children,
+    # TapLeaf on scripts incl. the 252/253-byte CompactSize boundary
+    from harness.common import toks_str
+    pairs = []
+    for _ in range(ctx.n(20, 300)):
+        a, b = G.rbytes(rng, 32), G.rbytes(rng, 32)
+        pairs += [(a, b), (b, a)]
+    x = G.rbytes(rng, 32)
+    pairs += [(x, x), (x[:31] + bytes([x[31] ^ 1]), x), (bytes(32), bytes([0] * 31 + [1])), (x[:16], x), (x, x[:16]), (b'', x), (b'', b'')]
+    for a, b in pairs:
+        ctx.count('gen-tapbranch')
+        yield Case(f'tapbranch {hx(a)} {hx(b)}', 'g', nontrivial=True, tag='gen-hash')
+    for ln in [1, 2, 75, 76, 200, 249, 250, 251, 252, 253, 254, 300] + [rng.randrange(1, 400) for _ in range(ctx.n(10, 100))]:
+        toks = [G.rbytes(rng, max(1, ln - 3)).hex(), 'OP_DROP', 'OP_1'] if ln > 3 else ['OP_1'] * ln
+        ctx.count('gen-tapleaf')
+        yield Case(f'tapleaf {toks_str(toks)}', 'g', nontrivial=True, tag='gen-hash')
     # out-of-range leaf index: the code returns a path with no target (model correspondence only)
     tree = TT.fill(('T', ('L',), ('L',)), iter([['OP_1'], ['OP_2']]))
     yield Case(f'tr_cb {hx(keys[0].to_bytes())} {TT.line(tree)} 5 0', 'm', nontrivial=True, tag='bad-index', domain=False)
@@ -114,6 +130,14 @@ def impl(op, a, ctx):
     from bitcoinutils.keys import PublicKey
     from bitcoinutils.utils import get_tag_hashed_merkle_root, ControlBlock
     F = Fields(a)
+    if op == 'tapbranch':
+        from bitcoinutils.utils import tapbranch_tagged_hash
+        a1 = F.bytes(); b1 = F.bytes()
+        return 'ok ' + hx(tapbranch_tagged_hash(a1, b1))
+    if op == 'tapleaf':
+        from bitcoinutils.utils import tapleaf_tagged_hash
+        from bitcoinutils.script import Script
+        return 'ok ' + hx(tapleaf_tagged_hash(Script(F.toks())))
     if op == 'tr_root':
         t = TT.parse(F); F.done()
         return 'ok ' + hx(get_tag_hashed_merkle_root(TT.to_py(t)))
